@@ -26,10 +26,12 @@ impl ESpecTable {
                     // Consecutive nulls or leading null = empty ESpec string
                     return Err(EncodingError::EmptyESpec);
                 }
-                let spec = String::from_utf8(current.clone())
-                    .unwrap_or_else(|_| String::from_utf8_lossy(&current).to_string());
+                // ESpec strings are text. Bytes that are not UTF-8 cannot be kept in a
+                // String without changing them, and so could not be written back.
+                let spec = String::from_utf8(std::mem::take(&mut current)).map_err(|e| {
+                    EncodingError::InvalidESpec(format!("ESpec string is not valid UTF-8: {e}"))
+                })?;
                 entries.push(spec);
-                current.clear();
             } else {
                 current.push(byte);
             }
